@@ -1437,6 +1437,9 @@ class Server:
                     break
                 except asyncio.QueueEmpty:
                     raise errors.NoAvailablePort
+                except asyncio.CancelledError:
+                    self.available_data_ports.put_nowait((priority, port))
+                    raise
                 except OSError as err:
                     self.available_data_ports.put_nowait((priority + 1, port))
                     if err.errno != errno.EADDRINUSE:
